@@ -54,11 +54,14 @@ type ClientSpec struct {
 }
 
 type Fault struct {
-	Kind       string     // "backend-close", "backend-rst", "topo" (CLUSTER NODES update adopted by the refresh code)
-	Addr       string     // node address (first open connection to it)
-	AfterW     int        // enabled once that connection has received this many commands
-	AfterTicks int        // enabled once this many TICK events have happened
-	Nodes      []NodeSpec // topo: the new topology
+	Kind       string              // "backend-close", "backend-rst", "topo" (CLUSTER NODES update adopted by the refresh code)
+	Addr       string              // node address (first open connection to it)
+	AfterW     int                 // enabled once that connection has received this many commands
+	AfterTicks int                 // enabled once this many TICK events have happened
+	Nodes      []NodeSpec          // topo: the new topology
+	Gate       func(w *World) bool // optional extra condition
+	// further kinds: "nodes-change" (the nodes report a new topology), "node-down" / "node-up" (the node at Addr stops /
+	// resumes accepting connections and answering health probes)
 }
 
 // ReplyFn lets a scenario override what a node answers. Return nil for the model's default.
@@ -564,7 +567,7 @@ func (w *World) enabled() []event {
 		}
 	}
 	for i, f := range w.Sc.Faults {
-		if w.faultUsed[i] || w.Ticks < f.AfterTicks {
+		if w.faultUsed[i] || w.Ticks < f.AfterTicks || (f.Gate != nil && !f.Gate(w)) {
 			continue
 		}
 		if f.Kind == "topo" || f.Kind == "nodes-change" || f.Kind == "node-down" || f.Kind == "node-up" {
